@@ -148,7 +148,7 @@ package ipfscluster
 //@   ensures nLogPin == old(nLogPin) && nLogUnpin == old(nLogUnpin)
 //@   loop 1 (range metrics)
 //@     invariant len(peers) == len(metrics) && (forall k int :: 0 <= k && k < idx1 ==> peers[k] == metrics[k].Peer)
-//@   modifies heap(api.Pin), heap([]peer.ID), allocN, lastOptsEq
+//@   modifies heap(api.Pin), heap([]peer.ID), allocN, lastOptsEq, sortedLists
 
 // ---- C04: pin / update / unpin change the log of consensus operations exactly as requested ----
 
@@ -173,7 +173,7 @@ package ipfscluster
 //@   ensures [reference-and-origins-copied] nLogPin == old(nLogPin) + 1 ==> lastLogged.Reference == pinset[from].Reference && lastLogged.Origins == pinset[from].Origins
 //@   ensures [returns-logged] nLogPin == old(nLogPin) + 1 ==> res != nil && *res == lastLogged
 //@   ensures [existing-pins-untouched] forall q *api.Pin :: !fresh(q) ==> *q == old(*q)
-//@   modifies nLogPin, lastLogged, allocN, lastOptsEq, heap(api.Pin)
+//@   modifies nLogPin, lastLogged, allocN, lastOptsEq, sortedLists, heap(api.Pin)
 
 // invariant of the shared pinset, established by every logged pin ([everywhere-empty] below): "-1 means everywhere: empty list"
 //@ spec func pinsetInv() bool = forall x cid.Cid :: haskey(pinset, x) && pinset[x].ReplicationFactorMin == -1 ==> len(pinset[x].Allocations) == 0
@@ -207,7 +207,7 @@ package ipfscluster
 // being evacuated) what is stored again is the stored pin's own allocation list
 //@   ensures [identical-repin-keeps-allocations] nLogPin == old(nLogPin) + 1 && !(isRedirect(old(pin.PinOptions), old(pin.Cid)) && len(blacklist) == 0) && haskey(pinset, old(pin.Cid)) && lastLogged.Type != api.MetaType && lastOptsEq && len(blacklist) == 0 && len(pinset[old(pin.Cid)].Allocations) > 0 ==> lastLogged.Allocations == pinset[old(pin.Cid)].Allocations
 //@   ensures [other-pins-untouched] forall q *api.Pin :: q != pin && !fresh(q) ==> *q == old(*q)
-//@   modifies nLogPin, lastLogged, allocN, lastOptsEq, heap(api.Pin)
+//@   modifies nLogPin, lastLogged, allocN, lastOptsEq, sortedLists, heap(api.Pin)
 
 //@ interface IPFSConnector.BlockGet(ctx, c)
 //@   modifies nothing
@@ -371,7 +371,7 @@ package ipfscluster
 //@   ensures [follower-does-nothing] c.config.FollowerMode ==> nLogPin == old(nLogPin)
 //@   ensures [same-cid-same-options] nLogPin == old(nLogPin) + 1 ==> lastLogged.Cid == old(pin.Cid) && optsAsRequested(c, lastLogged.PinOptions, old(pin.PinOptions))
 //@   ensures [other-pins-untouched] forall q *api.Pin :: q != pin && !fresh(q) ==> *q == old(*q)
-//@   modifies nLogPin, lastLogged, allocN, lastOptsEq, heap(api.Pin)
+//@   modifies nLogPin, lastLogged, allocN, lastOptsEq, sortedLists, heap(api.Pin)
 
 //@ ghost var vacateN int
 //@ ghost var lastVacated peer.ID
@@ -395,7 +395,7 @@ package ipfscluster
 //@     invariant forall j int :: 0 <= j && j < idx1 && in(p, elems(list[j].Allocations)) ==> in(list[j], repinOffered)
 //@     invariant forall q *Cluster :: *q == old(*q)
 //@     invariant forall q *Config :: *q == old(*q)
-//@   modifies nLogPin, lastLogged, allocN, lastOptsEq, repinOffered, heap(api.Pin)
+//@   modifies nLogPin, lastLogged, allocN, lastOptsEq, sortedLists, repinOffered, heap(api.Pin)
 
 // "an expired pin is unpinned ... and an unexpired pin by none": the sweep only unpins pins whose expiry is before now and for which this peer is closest
 //@ func (c *Cluster) StateSync
@@ -416,7 +416,7 @@ package ipfscluster
 //@   at_call Consensus.RmPeer assert [vacated-before-removal] vacateN == old(vacateN) + 1 && lastVacated == pid && p == pid
 //@   ensures [one-removal] rmPeerN == old(rmPeerN) + 1 && lastRmPeer == pid && vacateN == old(vacateN) + 1
 //@   ensures [never-unpins] nLogUnpin == old(nLogUnpin)
-//@   modifies vacateN, lastVacated, rmPeerN, lastRmPeer, nLogPin, lastLogged, allocN, lastOptsEq, repinOffered, heap(api.Pin)
+//@   modifies vacateN, lastVacated, rmPeerN, lastRmPeer, nLogPin, lastLogged, allocN, lastOptsEq, sortedLists, repinOffered, heap(api.Pin)
 
 // at most one peer considers itself closest: XOR with the CID's hash is injective, so two different peer hashes never tie
 //@ lemma xor_injective: forall a int, b int, k int :: a != b ==> (a ^ k) != (b ^ k)
@@ -637,7 +637,7 @@ package ipfscluster
 //@   property C04
 //@   requires pinsetInv()
 //@   at_call Cluster.pin assert [as-requested] arg_pin != nil && arg_pin.Cid == h && arg_pin.PinOptions == opts && arg_pin.Type == api.DataType && len(arg_pin.Allocations) == 0 && len(blacklist) == 0
-//@   modifies nLogPin, lastLogged, allocN, lastOptsEq, heap(api.Pin)
+//@   modifies nLogPin, lastLogged, allocN, lastOptsEq, sortedLists, heap(api.Pin)
 
 //@ interface IPFSConnector.Resolve(ctx, path)
 //@   modifies nothing
@@ -645,7 +645,7 @@ package ipfscluster
 //@   property C04
 //@   requires pinsetInv()
 //@   at_call Cluster.Pin assert [the-resolved-cid-with-the-requested-options] h == ci && arg_opts == opts
-//@   modifies nLogPin, lastLogged, allocN, lastOptsEq, heap(api.Pin)
+//@   modifies nLogPin, lastLogged, allocN, lastOptsEq, sortedLists, heap(api.Pin)
 //@ func (c *Cluster) UnpinPath
 //@   property C04
 //@   at_call Cluster.Unpin assert [the-resolved-cid] h == ci
